@@ -1,2 +1,61 @@
-(** C07 - theorems under construction. *)
-From Coq Require Import ZArith.
+(** C07 - overflow, underflow and subnormals follow IEEE exactly; no wrap-around.
+    PROVED (closed by [exact]): the exponent handed to the later stages is the SATURATION of the
+    mathematically exact decimal exponent (never a wrapped one), and saturation only happens
+    beyond +-(2^31 - 1) (proofs/ParseFacts.v); the integer-only statement of correct rounding
+    [rne_bits] (overflow to +inf at 2^emax, gradual underflow, ties to even) is equivalent to the
+    Flocq-based oracle RN (spec/RneBridge.v); see also props/C18.v for the shift-and-round
+    primitive incl. subnormals and overflow. *)
+
+From Coq Require Import ZArith QArith List Bool.
+From ML Require Import base.RustSem model.Fmt model.Number model.Parse model.Top model.Vec model.Bigint spec.Decimal spec.Round spec.RneZ spec.RneBridge
+  gen.Consts gen.Tables gen.BTables gen.PowDump proofs.LimbVal proofs.ParseFacts proofs.Glue proofs.NoUB proofs.BigintFacts2.
+Import ListNotations.
+
+Open Scope Z_scope.
+
+Theorem C07_parse_number_spec :
+  forall (b : build) (i f : list Z) (e : Z),
+         valid_inputb i f e = true ->
+         exists n : number,
+           parse_number b i f e = Ok n /\
+           0 <= nmant n < 2 ^ 64 /\
+           i32_min <= nexp n <= i32_max /\
+           (let D := digits_to_Z (i ++ f) in
+            let X := e - zlen f in
+            let s := strip0 (i ++ f) in
+            many n = (19 <? zlen s) /\
+            nmant n = digits_to_Z (firstn 19 s) /\
+            nexp n = clamp_i32 (X + Z.max 0 (zlen s - 19)) /\
+            (many n = false ->
+             nmant n = D /\ D < 10 ^ 19 /\ nexp n = clamp_i32 X /\ clamp_i32 X = Z.max i32_min X) /\
+            (many n = true ->
+             10 ^ 18 <= nmant n < 10 ^ 19 /\
+             (exists k : Z,
+                k = zlen s - 19 /\
+                1 <= k <= zlen i + zlen f - 19 /\
+                nmant n * 10 ^ k <= D < (nmant n + 1) * 10 ^ k /\ nexp n = clamp_i32 (X + k))) /\
+            (D = 0 -> nmant n = 0 /\ many n = false) /\
+            (nmant n = 0 -> D = 0) /\ (zlen i + zlen f <= 19 -> many n = false)).
+Proof. exact parse_number_spec. Qed.
+
+Theorem C07_saturation_is_far :
+  forall x : Z, clamp_i32 x <> x -> 2 ^ 31 - 1 <= Z.abs x.
+Proof. exact saturation_is_far. Qed.
+
+Theorem C07_clamp_i32_cases :
+  forall x : Z,
+         x < i32_min /\ clamp_i32 x = i32_min \/
+         i32_min <= x <= i32_max /\ clamp_i32 x = x \/ i32_max < x /\ clamp_i32 x = i32_max.
+Proof. exact clamp_i32_cases. Qed.
+
+Theorem C07_rne_bits_iff_RN :
+  forall f : format,
+         bfmt_ok f = true ->
+         forall n d bits : Z, 0 <= n -> 0 < d -> rne_bits f n d bits <-> RN f (n # Z.to_pos d) = bits.
+Proof. exact rne_bits_iff_RN. Qed.
+
+
+Print Assumptions C07_parse_number_spec.
+Print Assumptions C07_saturation_is_far.
+Print Assumptions C07_clamp_i32_cases.
+Print Assumptions C07_rne_bits_iff_RN.
